@@ -26,6 +26,8 @@ const (
 	secp256k1Crv  = "secp256k1"
 	secp256k1Kty  = "EC"
 	secp256k1Size = 32
+	ed25519Kty    = "OKP"
+	ed25519Crv    = "Ed25519"
 	bitsPerByte   = 8
 )
 
@@ -87,6 +89,12 @@ func (j *JWK) UnmarshalJSON(jwkBytes []byte) error {
 
 		*j = *jwk
 	} else {
+		// go-jose copies the x value of an Ed25519 key into a buffer of the key size: a shorter value is padded
+		// with zero bytes and a longer one is cut, so the width has to be checked here
+		if isEd25519(key.Kty, key.Crv) && (key.X == nil || len(key.X.data) != ed25519.PublicKeySize) {
+			return fmt.Errorf("unable to read JWK: %w", ErrInvalidKey)
+		}
+
 		var joseJWK jose.JSONWebKey
 
 		err := json.Unmarshal(jwkBytes, &joseJWK)
@@ -110,6 +118,10 @@ func (j *JWK) MarshalJSON() ([]byte, error) {
 	}
 
 	return (&j.JSONWebKey).MarshalJSON()
+}
+
+func isEd25519(kty, crv string) bool {
+	return kty == ed25519Kty && crv == ed25519Crv
 }
 
 func isSecp256k1(kty, crv string) bool {
